@@ -3,7 +3,7 @@
    programs evaluated under every permutation of their input declarations: all runs must coincide
    AND equal the model's run. *)
 From Coq Require Import List ZArith Bool.
-From UEC Require Import Base.Wire Push.Syntax Push.Run Corr.PushWire Corr.CorrPush.
+From UEC Require Import Base.Wire Push.Stack Push.Syntax Push.Run Corr.PushWire Corr.CorrPush.
 Import ListNotations.
 Local Open Scope Z_scope.
 
@@ -22,6 +22,22 @@ Definition hash_p : Z := 2^61 - 1.
 Definition many_names_expected (n : Z) : Z :=
   snd (Z.iter n (fun ih => let '(i, h) := ih in (i - 1, (h * 1000003 + (7 * i + 1) mod hash_p) mod hash_p)) (n - 1, 0)).
 
+(* ... and for up to 3000 inputs the closed form is not taken on trust: the interpreter model itself is run on that
+   program (the state has n declarations and n InputVar instructions) and must arrive at the same stack *)
+Definition many_names_state (n : nat) : state :=
+  let names := seq 0 n in
+  St (SS (N.of_nat n) (map (fun i => PI (InputVar (Z.of_nat i))) names)) (SS (N.of_nat n) []) (SS 0%N []) (SS 0%N [])
+     (map (fun i => (Z.of_nat i, LInt (7 * Z.of_nat i + 1))) names) [] (N.of_nat n + 5).
+Definition hash_top_first (l : list Z) : Z := fold_left (fun h x => (h * 1000003 + x mod hash_p) mod hash_p) l 0.
+Definition many_names_model (n : nat) : option Z :=
+  match run_alts (many_names_state n) with
+  | r :: _ => match final_of_rs r with
+              | FOk s => if Nat.eqb (length (elems (ints s))) n then Some (hash_top_first (elems (ints s))) else None
+              | _ => None
+              end
+  | [] => None
+  end.
+
 Definition judge (t : tree) : option (list Z) :=
   match t with
   | L [L (A 0 :: _); L (first :: rest)] =>
@@ -29,6 +45,7 @@ Definition judge (t : tree) : option (list Z) :=
   | L [L [A 2; A n; _]; L runs] =>
     if (n <=? 0) || (2000000 <? n) then None else
     let h := many_names_expected n in
+    if (n <=? 3000) && negb (match many_names_model (Z.to_nat n) with Some h' => h' =? h | None => false end) then None else
     Some [if Nat.eqb (length runs) 3 && forallb (fun r => match r with L [A len; A hh] => (len =? n) && (hh =? h) | _ => false end) runs
           then 0 else 2]
   | L [L [A 3; _]; L runs] =>
